@@ -324,6 +324,10 @@ func generate(family string, rng *rand.Rand, thorough bool) []plan {
 				&Stage{Kind: "throttle", Ops: rng.Intn(3) + 1, Freq: rng.Intn(5) + 2},
 				&Stage{Kind: "map", A: 1, B: 1, Fail: &Fail{Kind: "modeq", M: 3, R: 1}, Try: rng.Intn(2) == 0},
 				&Stage{Kind: "fmap", M: 3, Fail: &Fail{Kind: "modeq", M: 4, R: 1}, Try: rng.Intn(2) == 0},
+				// predicates that fail on every other element (they answer (true, error) there): the stage goes on and closes
+				&Stage{Kind: "partition", Pred: &Pred{Kind: "even", EM: 2, ER: rep % 2}},
+				&Stage{Kind: "filter", Pred: &Pred{Kind: "lt", C: 5, EM: 2, ER: (rep + 1) % 2}},
+				&Stage{Kind: "takewhile", Pred: &Pred{Kind: "true", EM: 2, ER: rep % 2}},
 			)
 			for _, s := range stages {
 				nin := 1
@@ -393,9 +397,10 @@ func generate(family string, rng *rand.Rand, thorough bool) []plan {
 						}
 						sc = append(sc, intent{kind: "cancel"})
 					}
-					if timed {
+					if s.Kind == "emit" {
 						// Emit cannot be interrupted while it sleeps, and a select with both arms ready may
 						// still pick the send: it is gone after at most (free capacity + 1) further periods
+						// (Throttling's pacer waits in a select with ctx.Done(): it is gone at once, no time is given to it)
 						sc = append(sc, intent{kind: "sleep", d: (s.N + 2) * max(s.Freq, 1)})
 					}
 					add(plan{stage: s, icaps: icaps, inputs: inputs, sched: &scripted{script: sc}, maxMoves: 60, drain: false, gen: "absent-consumer"})
